@@ -1,4 +1,6 @@
 import Fdo.StoreProofs
+import Fdo.Cbor.TypedProofs
+import Fdo.Gen.Schemas
 /-
 C18 — SQLite server state is a faithful, session-isolated store across restarts.
 
@@ -431,5 +433,21 @@ nothing (the voucher just added is the one removed). -/
 theorem replace_same_guid_lost_original :
     results .original exMac Store.empty [.replaceVoucher g1 g1 false [3], .getVoucher g1] =
     [.ok, .notFound] := by decide
+
+/-- **Value fidelity of what the store keeps as CBOR**: a voucher, rendezvous information, a voucher
+header or a rendezvous blob written to the database and read back is the value that was written
+(`Unmarshal ∘ Marshal = id` on the regenerated schemas of the stored types; the abstract store above treats
+values as opaque bytes — this is what makes that abstraction faithful for these types). -/
+theorem stored_values_roundtrip (ok : Fdo.Cbor.CertOracle) (v : Fdo.Cbor.Val) (b : Bytes)
+    (hl : b.length < 18446744073709551616) :
+    ∀ s ∈ [Fdo.Gen.Schemas.s_Voucher, Fdo.Gen.Schemas.s_RvInfo, Fdo.Gen.Schemas.s_VoucherHeader,
+           Fdo.Gen.Schemas.s_Sign1Tag_To1d_, Fdo.Gen.Schemas.s_X5Chain],
+      Fdo.Cbor.marshalS s v = some b → Fdo.Cbor.conf ok 10000 Fdo.Cbor.maxDepth s v = true →
+      Fdo.Cbor.unmarshalS ok s b = some v := by
+  intro s hs hm hc
+  have hfr : s.inFragment = true ∧ s.ptrDepth ≤ 63 := by
+    simp only [List.mem_cons, List.mem_singleton, List.not_mem_nil, or_false] at hs
+    rcases hs with rfl | rfl | rfl | rfl | rfl <;> exact ⟨by decide +kernel, by decide +kernel⟩
+  exact Fdo.Cbor.unmarshalS_marshalS ok s v b hfr.1 hfr.2 hm hc hl
 
 end Fdo.Props.C18
